@@ -204,7 +204,20 @@ CHECKS["C12"] = dict(
     technique="Coq proof (monotonicity invariant over histories of operations) + differential runs against real git and bob",
     design="5/C12")
 
-READY = ["C01", "C02", "C03", "C05", "C06", "C08", "C09", "C10", "C11", "C12", "C13", "C14", "C15", "C17", "C18", "C19", "C20"]
+CHECKS["C04"] = dict(
+    text="Coq model of tracked readers (Env.touched stack, touchReset, derive), the PackageMatcher memo of Recipe.prepare with "
+         "touch propagation on hits, the merge by result-id, the YAML parse cache and the package-tree cache key. Unbounded "
+         "theorems: read determinacy (agreement on touched keys => same result and touches), memo transparency for every "
+         "history of nested prepare calls (without the merge, and with it under the named hypothesis rid_determines_subtree, "
+         "which is `_refuted` for the real code: known findings F18/F19), YAML cache transparency under the stat assumption, "
+         "cache key determines its inputs or an explicit SHA-1 collision. Tie: real RecipeSet dumps over edit histories: cold vs "
+         "warm vs each cache file removed vs uncached in-memory (matches patched off) vs other hash seed; an interpreter of the "
+         "calculus (Instance.v) compared with the real memo tables and package trees.",
+    note="the tie between Recipe.prepare and the calculus is correspondence only; plugins and SCMs are outside the model",
+    technique="Coq proof (determinacy and transparency by induction over call trees/histories) + cold/warm differential runs",
+    design="5/C04")
+
+READY = ["C01", "C02", "C03", "C04", "C05", "C06", "C08", "C09", "C10", "C11", "C12", "C13", "C14", "C15", "C17", "C18", "C19", "C20"]
 
 NOT_YET = {}
 
